@@ -190,8 +190,13 @@ def trait_of(cfg):
     if t == "Instance":
         if cfg.get("nm"):
             return T.Instance("harness.drivers.valclasses." + cfg["k"], allow_none=cfg["an"])
+        if cfg.get("re"):
+            # the None policy is given when the definition is cloned: Instance(K, allow_none=not an)(allow_none=an)
+            return T.Instance(w[cfg["k"]], allow_none=not cfg["an"])(allow_none=cfg["an"])
         return T.Instance(w[cfg["k"]], allow_none=cfg["an"])
     if t == "InstAd":
+        if cfg.get("re"):
+            return T.Instance(w[cfg["k"]], adapt="yes", allow_none=not cfg["an"])(allow_none=cfg["an"])
         if cfg["k"] == "B" and cfg["mn"] == 1:
             return T.Supports(w["B"], allow_none=cfg["an"])              # (Supports = Instance with adapt="yes")
         return T.Instance(w[cfg["k"]], adapt={1: "yes", 2: "default"}[cfg["mn"]], allow_none=cfg["an"])
